@@ -740,6 +740,7 @@ class Interp:
         i = ctx.fresh_int('it%d' % inv.ordinal)
         if mode:
             ctx.assume(z3.And(i >= 0, i < n))
+            ctx.ghost.setdefault('witnesses', []).append((i, 'loop iteration'))
             inv.havoc(self, fr, i, it)
             inv.mode = 'assume'
             for nm, g in inv.inv(self, fr, i, it):
